@@ -56,6 +56,9 @@ func (r *msgReceiver) ReadFully() (message []byte, metadata map[string][]byte, e
 	}
 
 	msgSize := int(binary.BigEndian.Uint64(firstChunk.Content))
+	if msgSize < 0 {
+		return nil, firstChunk.Metadata, errors.New(ErrMaxValueLenExceeded)
+	}
 
 	b := make([]byte, msgSize)
 	read := 0
